@@ -225,15 +225,27 @@ def run(ctx):
                 n = M.callee_name(c)
                 if n.endswith("::matches") and "WildMatch" in n:
                     return True
-                if depth < 2 and clean_helper(n) and w.lookup(n) is not None and "body" in w.lookup(n) and calls_matches(w.lookup(n), depth + 1):
+                if depth < 2 and clean_helper(n) and w.lookup(n) is not None and "body" in w.lookup(n) and \
+                   (calls_matches(w.lookup(n), depth + 1) or any(calls_matches(h2, depth + 1) for h2 in nested(w.lookup(n)["path"]))):
                     return True
             return False
+        # which list a filter closure works on is read from where the closure is built: the values it captures (`list_remove_classes.Some.0`,
+        # `list_allow_classes` / `mode_allow_classes`), not from the names of its own locals
+        from . import panic_common as _PC
+        import json as _json
+        _mb, _md = main["body"], _PC.roots(main["body"])
+        captured = {}
+        for b_ in _mb["blocks"]:
+            for st_ in b_["s"]:
+                if st_[0] == "=" and st_[2][0] == "agg" and isinstance(st_[2][1], dict) and st_[2][1].get("k") == "closure":
+                    captured[st_[2][1].get("def")] = " ".join(_json.dumps(_PC.expr(_mb, _md, o_)) for o_ in st_[2][2])
         subs = [fn for fn in w.all_fns() if fn["path"].startswith(main["path"] + "::{closure#") and fn["path"].count("{closure") == main["path"].count("{closure") + 1
                 and "body" in fn and (calls_matches(fn) or any(calls_matches(h) for h in nested(fn["path"])))]
         kinds = {}
         for g in subs:
             ps = dexc.paths(g, [D.sym("env"), D.sym("class")])
             txt = " ".join(D.show_atom(a) for p in ps for a, t in p.conds) + " ".join(D.show(p.ret) for p in ps if p.kind == "ret")
+            txt += " " + captured.get(g["path"], "")
             kind = "remove" if "remove_classes" in txt else "allow" if "allow_classes" in txt else "?"
             rets = [p for p in ps if p.kind == "ret"]
             okk = bool(rets) and all(p.kind in ("ret", "loop") for p in ps)
@@ -241,15 +253,15 @@ def run(ctx):
                 r = D.show(p.ret)
                 if p.ret is not None and p.ret[0] in ("atom", "natom", "sym") and r.lstrip("!(").startswith("Iterator::any("):
                     # iterator shape: [!]patterns.any(|pattern| WildMatch::new(pattern).matches(class))
-                    m = re.search(r"closure\[([^\]]+)\]\{_ref__class=class\}\)\)?$", r)
+                    m = re.search(r"closure\[([^\]]+)\]\{_ref__(\w+)=class\}\)\)?$", r)
                     inner = w.lookup(m.group(1)) if m else None
                     iok = False
                     if inner is not None and "body" in inner:
                         ips = dexc.paths(inner, [D.sym("env"), D.sym("pattern")])
-                        iok = len(ips) == 1 and D.show(ips[0].ret) == "WildMatchPattern::matches(WildMatchPattern::new(pattern), env._ref__class)"
+                        iok = len(ips) == 1 and D.show(ips[0].ret) == f"WildMatchPattern::matches(WildMatchPattern::new(pattern), env._ref__{m.group(2)})"
                     positive = p.ret[0] != "natom"
                     okk = okk and iok and ((kind == "allow" and positive) or (kind == "remove" and not positive)) and \
-                        (("remove_classes" in r) == (kind == "remove"))
+                        (("remove_classes" in r + " " + captured.get(g["path"], "")) == (kind == "remove"))
                     continue
                 conds = [(D.show_atom(a), t) for a, t in p.conds]
                 m = [(a, t) for a, t in conds if a.startswith("WildMatchPattern::matches(")]
